@@ -112,8 +112,8 @@ CLAIMED["C15"] = {
 }
 
 CLAIMED["C04"] = {
-    "text": "Lean theorems over the evaluator model (mutual fuel recursion mirroring evaluate_expression / evaluate_assignment / evaluate_assignments): only the taken branch of if / && / || is evaluated and assert's message only on failure - the result equations do not mention the untaken expression at all (value, error, backtick log, bindings); + and / are concatenations; dry-run shows backticks unevaluated; override_irrelevant / override_skips_expression: with a variable overridden on the command line the WHOLE evaluation of the module (every value, the backtick log, the outcome) is the same whatever expression the justfile gives that variable - proved by simultaneous induction over all three evaluator functions; the proved witness that the pinned lookup order made `A := HEX` and `Z := HEX` disagree (repaired by a fix: commit). Correspondence: random assignment sets over every expression form and 20 concrete functions, names unrelated to the dependency order (lazy forward evaluation), user variables named like constants, overrides by NAME=VALUE and --set, failing backticks; values and the ordered backtick log against the model; direct oracles: no backtick twice, overridden expressions never run, no internal error, same result with the assignments written in reverse order, submodule assignments once per invocation, parameter defaults only when omitted.",
-    "note": "Partial: about fifty built-in functions (paths, hashes, heck case conversions, datetime, uuid, semver, file access) are outside the concrete set and not generated; regex operators only with literal patterns; ASCII letters/whitespace; string-literal cooking and unindent are not yet modelled (exercised only through the binary's own parser). `once` (each assignment at most once) is checked behaviourally and through the ghost evalAssign log of the model, not yet proved. Trusted: Lean kernel; Eval model (tied by the differential run).",
+    "text": "Lean theorems over the evaluator model (mutual fuel recursion mirroring evaluate_expression / evaluate_assignment / evaluate_assignments): only the taken branch of if / && / || is evaluated and assert's message only on failure - the result equations do not mention the untaken expression at all (value, error, backtick log, bindings); + and / are concatenations; dry-run shows backticks unevaluated; override_irrelevant / override_skips_expression: with a variable overridden on the command line the WHOLE evaluation of the module (every value, the backtick log, the outcome) is the same whatever expression the justfile gives that variable - proved by simultaneous induction over all three evaluator functions; each_assignment_once: for every acyclically ranked table (what the resolver guarantees), any overrides, child behaviour and fuel, successful or failing, no assignment's expression starts evaluating twice (invariant: logged names are bound or rank above the current expression; new names rank below it and end up bound); the proved witness that the pinned lookup order made `A := HEX` and `Z := HEX` disagree (repaired by a fix: commit). Correspondence: random assignment sets over every expression form and 20 concrete functions, names unrelated to the dependency order (lazy forward evaluation), user variables named like constants, overrides by NAME=VALUE and --set, failing backticks; values and the ordered backtick log against the model; direct oracles: no backtick twice, overridden expressions never run, no internal error, same result with the assignments written in reverse order, submodule assignments once per invocation, parameter defaults only when omitted.",
+    "note": "Partial: about fifty built-in functions (paths, hashes, heck case conversions, datetime, uuid, semver, file access) are outside the concrete set and not generated; regex operators only with literal patterns; ASCII letters/whitespace; string-literal cooking and unindent are not yet modelled (exercised only through the binary's own parser). Trusted: Lean kernel; Eval model (tied by the differential run).",
     "technique": "Lean 4 proof (non-interference by simultaneous induction) + differential correspondence of values and backtick logs",
     "design": "4/C04",
 }
